@@ -60,6 +60,11 @@ def step (x : S) (w : List String) : Option (S × String × List String) :=
     match subscribe x.st { key := key, id := id, elem := elem, hasCtx := ctx == "1" } with
     | none => some (x, "panic", ["dup_sub"])
     | some s' => some ({ x with st := s' }, "ok", [])
+  | ["dupsub", id] => do
+    -- a duplicate subscription (same key and channel, another context) is rejected and changes nothing: the subscription that
+    -- exists keeps its own context
+    let id ← id.toNat?
+    if x.st.subs.any (·.id == id) then some (x, "panic", ["dup_sub_other_ctx"]) else some (x, "ok-undone", [])
   | ["unsub", id, key] => do
     let id ← id.toNat?; let key ← key.toNat?
     match unsubscribe x.st key id with
